@@ -1122,13 +1122,32 @@ def index_terms(body, v):
             continue
         seen.add(t.get_id())
         if z3.is_quantifier(t):
+            # terms inside a nested quantifier qualify when they do not mention its bound variables
+            stack.append(t.body())
             continue
         if z3.is_app(t):
-            if t.decl().kind() == z3.Z3_OP_SELECT and t.arg(1).get_id() == vid and not mentions(t.arg(0)):
+            if t.decl().kind() == z3.Z3_OP_SELECT and t.arg(1).get_id() == vid and not mentions(t.arg(0)) \
+                    and not has_var(t.arg(0)):
                 if all(o.get_id() != t.get_id() for o in out):
                     out.append(t)
             stack.extend(t.children())
     return out
+
+
+def has_var(t):
+    st2, sn = [t], set()
+    while st2:
+        x = st2.pop()
+        if x.get_id() in sn:
+            continue
+        sn.add(x.get_id())
+        if z3.is_var(x):
+            return True
+        if z3.is_app(x):
+            st2.extend(x.children())
+        elif z3.is_quantifier(x):
+            return True
+    return False
 
 
 # -------------------------------------------------------------------- helper constructions
